@@ -16,6 +16,8 @@ FEED_CATS = DISPLAY_CATS + ('convert-from-unit', 'qstr', 'storage-label', 'add-u
 
 
 def run(ctx):
+    from .configtime import groupby_on_sorted_input as _groupby
+    _groupby(ctx, 'C19.R2', ('Recipe.bake', 'Container._transfer', 'PlateSlicer._transfer', 'Container._transfer_slice'))
     from .configtime import precision_zero_is_a_value as _prec0
     _prec0(ctx, 'C19.R1', classes=None)
     # contents are keyed by Substance objects: the key laws this property's bookkeeping relies on
